@@ -31,7 +31,11 @@ def forests(n):
 
 
 class World:
-    def __init__(self, parent, thr, report=None, gt=()):
+    def __init__(self, parent, thr, report=None, gt=(), values=None):
+        """values: optional strictly increasing list of floats; rank r then stands for values[r] instead of r/16 (thresholds are
+        Python floats, i.e. doubles; distances are produced by dists() in the requested representation)"""
+        self.values = values
+        val = (lambda r: values[r]) if values else globals()['val']
         n = len(parent)
         report = report if report is not None else [True] * n
         self.taxa = []
@@ -54,5 +58,17 @@ class World:
     def g(self, genome):
         return 0 if genome is None else self.gid.get(id(genome), -1)
 
-    def dists(self, d):
-        return np.array([val(x) for x in d], dtype=np.float32)
+    def dists(self, d, how='f4'):
+        vals = [self.values[x] if self.values else val(x) for x in d]
+        if how == 'list':
+            return list(vals)
+        arr = np.array(vals, dtype=np.dtype(how))
+        assert [float(v) for v in arr] == vals, 'distance values must be exact in the requested representation'
+        return arr
+
+    def rank_of(self, x):
+        if self.values is None:
+            return rank_of(x)
+        if x is None:
+            return -1
+        return self.values.index(float(x)) if float(x) in self.values else -2
